@@ -5,6 +5,7 @@ import VerifModel.Spec.Det
 import VerifModel.Spec.Rank
 import VerifModel.Model.DetSingle
 import VerifModel.Driver.Cont
+import VerifModel.Model.Aggregator
 /- Driver ops for the deterministic metrics (C05). -/
 namespace VerifModel.Driver.Det
 open VerifModel Proto
@@ -27,7 +28,9 @@ def aggByName (T : Tr) (name : String) : Option (Vec → XR) :=
       if n = 0 then .nan
       else if n % 2 = 1 then s.getD (n / 2) .nan
       else (s.getD (n / 2 - 1) .nan + s.getD (n / 2) .nan) / .fin 2
-  | _ => none
+  -- count, iqr, change, abschange and the quantile levels ("0.3"): the C15 models (Model/Aggregator.lean);
+  -- where NumPy raises on an empty array (`none`) the callers catch the exception / never get there: NaN
+  | n => (Agg.get n).map fun a v => (Agg.apply T a v).getD .nan
 
 def ratsOf? (v : Vec) : Option (List Rat) :=
   v.mapM fun x => match x with | .fin q => some q | _ => none
@@ -86,12 +89,23 @@ def handle (args : List String) : Option String :=
       let a ← (match ax with | "obs" => some CondAxis.obs | "fcst" => some CondAxis.fcst | "no" => some CondAxis.none | _ => none)
       let (obs, fcst) := (← parseVec? obs, ← parseVec? fcst)
       if name == "obs" || name == "fcst" then
-        some (toString (fromFieldSingle aggf (agg == "min" || agg == "max") (name == "obs") a I obs fcst))
+        some (toString (fromFieldSingle aggf (agg == "min" || agg == "max" || ((Agg.get agg).map (Agg.raisesOnEmpty floatTr)).getD false) (name == "obs") a I obs fcst))
       else if name == "within" then some (toString (withinSingle I obs fcst))
       else if name == "corr" then some (toString (obsFcstSingle (corr floatTr) a I obs fcst))
       else match Gen.Det.eval floatTr name aggf [] [] with
         | none => some "ERR"
         | some _ => some (toString (obsFcstSingle (fun o g => (Gen.Det.eval floatTr name aggf o g).getD .nan) a I obs fcst))
+  | ["ffaux", agg, ax, iv, auxk, xs, obs, fcst] => do
+      -- FromField(Other("x"), aux = none | Obs | Fcst) under -x no | obs | fcst
+      let aggf ← aggByName floatTr agg
+      let I ← Driver.Cont.parseInterval? iv
+      let (xs, obs, fcst) := (← parseVec? xs, ← parseVec? obs, ← parseVec? fcst)
+      let pick := fun (k : String) => match k with
+        | "obs" => some (some obs) | "fcst" => some (some fcst) | "no" => some none | "none" => some none | _ => none
+      let axisCol ← pick ax
+      let aux ← pick auxk
+      let r := agg == "min" || agg == "max" || ((Agg.get agg).map (Agg.raisesOnEmpty floatTr)).getD false
+      some (toString (fromFieldAuxSingle aggf r I xs axisCol aux))
   | ["detperfect", name] => some (showOpt (Gen.Det.perfect name))
   | ["detorient", name] => some (showOpt (Gen.Det.orientation name))
   | ["detnames"] => some (",".intercalate Gen.Det.names)
